@@ -66,19 +66,42 @@ func settle(t *rapid.T, base int, what string) {
 	t.Fatalf("%s left goroutines behind: %d running, %d before the call\n%s", what, runtime.NumGoroutine(), base, buf[:n])
 }
 
-func readBitmap(bs gen.BitmapSpec) *roaring.Bitmap {
+var keepBuffers [][]byte // buffers behind zero-copy inputs stay alive for the process lifetime
+
+// readBitmap materializes a spec: owned (ReadFrom), zero-copy over a buffer (every chunk flagged
+// shared), or as one side of a copy-on-write clone pair (every chunk flagged shared).
+func readBitmap(bs gen.BitmapSpec, how int) *roaring.Bitmap {
 	enc, _ := spec.EncodePortable(bs.Chunks, spec.EncOpts{})
 	b := roaring.New()
-	if _, err := b.ReadFrom(bytes.NewReader(enc)); err != nil {
-		panic(err)
+	switch how {
+	case 1:
+		keepBuffers = append(keepBuffers, enc)
+		if len(keepBuffers) > 4096 {
+			keepBuffers = keepBuffers[2048:]
+		}
+		if _, err := b.FromBuffer(enc); err != nil {
+			panic(err)
+		}
+	default:
+		if _, err := b.ReadFrom(bytes.NewReader(enc)); err != nil {
+			panic(err)
+		}
+		if how == 2 {
+			b.SetCopyOnWrite(true)
+			_ = b.Clone() // flags every chunk of b as shared
+		}
 	}
 	return b
 }
 
 // parList draws a list of bitmaps over a common key window (cheap contents; built by decoding, not by Add loops).
+// anyCOW reports whether a member was made with SetCopyOnWrite(true).
+var anyCOW bool
+
 func parList(t *rapid.T) ([]*roaring.Bitmap, []*model.Set, string) {
+	anyCOW = false
 	n := rapid.IntRange(0, 6).Draw(t, "n")
-	span := rapid.SampledFrom([]int{1, 2, 5, 17, 33, 70, 140, 260}).Draw(t, "span")
+	span := rapid.SampledFrom([]int{1, 2, 5, 17, 33, 70, 132, 140, 230, 260}).Draw(t, "span") // 132 = 4*33 and 230 > 3*64+32: more work items than channel capacity + workers
 	k0 := rapid.SampledFrom([]int{0, 30000, 65536 - span}).Draw(t, "k0")
 	var bs []*roaring.Bitmap
 	var ms []*model.Set
@@ -114,7 +137,11 @@ func parList(t *rapid.T) ([]*roaring.Bitmap, []*model.Set, string) {
 		} else {
 			sp = gen.BitmapWithKeys(t, label, keys, gen.KindsValid)
 		}
-		bs, ms = append(bs, readBitmap(sp)), append(ms, sp.Set())
+		how := rapid.IntRange(0, 2).Draw(t, label+".storage")
+		if how == 2 {
+			anyCOW = true
+		}
+		bs, ms = append(bs, readBitmap(sp, how)), append(ms, sp.Set())
 		desc += fmt.Sprintf(" [%d chunks]", len(sp.Chunks))
 	}
 	return bs, ms, desc
@@ -182,7 +209,7 @@ func propC12Aggregates(t *rapid.T) {
 	roaring.VerifYieldHook, roaring64.VerifYieldHook = hook, hook
 	defer func() { roaring.VerifYieldHook, roaring64.VerifYieldHook = nil, nil }()
 	fn := rapid.SampledFrom([]string{"ParOr", "ParHeapOr", "ParAnd", "ParOr64"}).Draw(t, "fn")
-	workers := rapid.SampledFrom([]int{0, 1, 2, 3, 8, 16}).Draw(t, "workers")
+	workers := rapid.SampledFrom([]int{0, 1, 2, 3, 8, 16, 33, 64}).Draw(t, "workers")
 	reps := rapid.IntRange(1, 3).Draw(t, "reps")
 	base := runtime.NumGoroutine()
 	what := fmt.Sprintf("%s(%d) over %d bitmaps, %s%s", fn, workers, len(bs), desc, tdesc)
@@ -195,7 +222,10 @@ func propC12Aggregates(t *rapid.T) {
 	// the inputs are read-only for the Par* functions: two callers may share them. Run the same call
 	// from two goroutines at once over the SAME input bitmaps (a write to an input by any worker is
 	// then a data race for the detector), and check afterwards that every input still equals its model.
-	if fn != "ParOr64" && len(bs) > 0 && rapid.Bool().Draw(t, "sharedInputs") {
+	// (not with copy-on-write ENABLED inputs: there even Clone() flags the source's chunks, and the
+	// documentation says copy-on-write "requires extra care in a threaded context" - sharing such a
+	// bitmap between concurrent callers is outside the contract; zero-copy inputs are fine)
+	if fn != "ParOr64" && len(bs) > 0 && !anyCOW && rapid.Bool().Draw(t, "sharedInputs") {
 		guarded(t, what+" (two concurrent callers sharing the inputs)", func() {
 			var wg sync.WaitGroup
 			for g := 0; g < 2; g++ {
@@ -306,6 +336,13 @@ func propC12Aggregates(t *rapid.T) {
 			t.Fatalf("%s (GOMAXPROCS=%d, repetition %d) != sequential fold: %s", what, runtime.GOMAXPROCS(0), r, model.Diff(want, got))
 		}
 		settle(t, base, what)
+	}
+	if fn != "ParOr64" {
+		for i, b := range bs {
+			if g := setOf(b); g == nil || !g.Equal(ms[i]) {
+				t.Fatalf("%s: input #%d was modified by the call: %s", what, i, model.Diff(ms[i], g))
+			}
+		}
 	}
 	inst.Count("C12", "fn:"+fn)
 	inst.Case("C12", len(keys) >= 2 && workers != 1 && len(bs) >= 2, what+fmt.Sprintf(" GOMAXPROCS=%d", runtime.GOMAXPROCS(0)))
